@@ -594,6 +594,7 @@ def build(program):
         world.interp = it
         return it.main_fn()
 
+    _b.program = program
     return _b
 
 
